@@ -196,8 +196,26 @@ class Intern:
 
 def _coq_case(ops, prof):
     I = Intern()
+    S = Intern()          # string contents
     procs, threads, libs, maps = [], [], [], {}
     samples, mstacks, visible, selected, counters = [], [], [], [], []
+    reqs = []
+
+    def request(th, p, f):
+        """the table request a frame causes (same resolution as `expect`)"""
+        if f[0] == "l":
+            reqs.append("(%d%%nat, FLabel %d)" % (th, S(f[1:])))
+            return
+        a = int(f[1:], 16)
+        x = a if f[0] == "a" else max(a - 1, 0)
+        hit = None
+        for (l, s0, e0, rel) in maps.get(p, []):
+            if s0 <= x < e0:
+                hit = (l, rel + (x - s0))
+        if hit is None:
+            reqs.append("(%d%%nat, FLabel %d)" % (th, S("0x%x" % x)))
+        else:
+            reqs.append("(%d%%nat, FNative %d%%nat %d %d %d)" % (th, hit[0], hit[1], S("0x%x" % hit[1]), S(libs[hit[0]])))
 
     def expect(p, f):
         if f[0] == "l":
@@ -227,9 +245,15 @@ def _coq_case(ops, prof):
             threads[o[1]][4] = int(o[2][2:])
         elif k == "S":
             samples.append((o[1], o[2], [expect(threads[o[1]][0], f) for f in o[4:]]))
+            for f in o[4:]:
+                request(o[1], threads[o[1]][0], f)
         elif k == "K":
+            reqs.append("(%d%%nat, FString %d)" % (o[1], S(o[3])))
+            reqs.append("(%d%%nat, FString %d)" % (o[1], S(o[4])))
             if len(o) > 5:
                 mstacks.append((o[1], [expect(threads[o[1]][0], f) for f in o[5:]]))
+                for f in o[5:]:
+                    request(o[1], threads[o[1]][0], f)
         elif k == "C":
             counters.append(o[1])
         elif k == "V":
@@ -275,16 +299,30 @@ def _coq_case(ops, prof):
                 mst.append(_opt(dta["cause"].get("stack")))
         oth.append("(%s, %s, %s, %s, %s, %s, %s)" % (_id(th["pid"]), _id(th["tid"]), "true" if th["isMainThread"] else "false", _thread_json(th, nlibs, ncats),
                                                      K.coq_list(stack_keys), K.coq_list(rows), K.coq_list(mst)))
+    otables = []
+    for th in prof["threads"]:
+        ft, fu, rt = th["frameTable"], th["funcTable"], th["resourceTable"]
+        otables.append("(%s, %s, %s, %s, %s, %s, %s)" % (
+            K.coq_list([str(S(x)) for x in th["stringArray"]]),
+            K.coq_list(["%d%%nat" % x for x in rt["lib"]]), K.coq_list(["%d%%nat" % x for x in rt["name"]]),
+            K.coq_list(["%d%%nat" % x for x in fu["name"]]), K.coq_list([_opt(x) for x in fu["resource"]]),
+            K.coq_list(["%d%%nat" % x for x in ft["func"]]),
+            K.coq_list(["None" if (x is None or x < 0) else "(Some %d)" % x for x in ft["address"]])))
+    oblibs = []
+    for l in prof["libs"]:
+        nm = l["name"]
+        oblibs.append("%d%%nat" % (libs.index(nm) if nm in libs else 999))
     meta = prof["meta"]
     obc = ["(%d%%nat, %s)" % (c["mainThreadIndex"], _id(c["pid"])) for c in prof.get("counters", [])]
     nat = lambda l: K.coq_list(["%d%%nat" % x for x in l])
-    return "(mkCase %s %s %s %s %s %s %s %s %s %s %s)" % (
+    return "(mkCase %s %s %s %s %s %s %s %s %s %s %s %s %s %s)" % (
         K.coq_list(["(%d, %d)" % p for p in procs]),
         K.coq_list(["(%d%%nat, %d, %d, %s, %s)" % (t[0], t[1], t[2], "true" if t[3] else "false", "None" if t[4] is None else "(Some %d)" % t[4]) for t in threads]),
         K.coq_list(["(%d%%nat, %d, %s)" % (h, t, nat(fr)) for h, t, fr in samples]),
         K.coq_list(["(%d%%nat, %s)" % (h, nat(fr)) for h, fr in mstacks]),
         nat(visible), nat(selected), nat(counters), K.coq_list(oth),
-        nat(meta.get("initialVisibleThreads", [])), nat(meta.get("initialSelectedThreads", [])), K.coq_list(obc))
+        nat(meta.get("initialVisibleThreads", [])), nat(meta.get("initialSelectedThreads", [])), K.coq_list(obc),
+        K.coq_list(reqs), K.coq_list(oblibs), K.coq_list(otables))
 
 
 def evaluate(cases):
@@ -323,7 +361,7 @@ def evaluate(cases):
         idx.append(i)
     shards = [K.case_defs("c03case", ch) for ch in K.chunked(terms, K.NCPU)]
     try:
-        res = K.coq_eval(PROP, "From SV Require Import Model.ProfileTables Tie.C03.\nOpen Scope N_scope.", shards)
+        res = K.coq_eval(PROP, "From SV Require Import Model.ProfileTables Model.FrameTables Tie.C03.\nOpen Scope N_scope.", shards)
     except RuntimeError as ex:
         raise K.TieBroken(str(ex))
     flat = [v for r in res for v in r]
